@@ -188,7 +188,7 @@ func TestVerifC04MergeSplit(t *testing.T) {
 		case <-time.After(3 * time.Second):
 			// split() never returns and allocates without bound: record it and stop the process
 			out.Linef("obs diverge")
-			out.Linef("viol sig=C04/mergesplit/does-not-terminate sig=%s sizer=%s max=%d", sig, szName, max)
+			out.Linef("viol sig=C04/mergesplit/does-not-terminate/%s-%s max=%d", sig, szName, max)
 			out.Linef("end")
 			out.Close()
 			os.Exit(0)
